@@ -209,7 +209,7 @@ class Lines(Part):
     budget = {"quick": (8, 1000), "thorough": (16, 8000)}
 
     def strategy(self, tier):
-        rule = st.builds(lambda t, ch, al: {"k": "rule", "title": t, "characters": ch, "align": al}, st.one_of(st.just(""), GT.text_content(True)),
+        rule = st.builds(lambda t, ch, al: {"k": "rule", "title": t, "characters": ch, "align": al}, st.one_of(st.just(""), GT.text_content(True), GT.title_content()),
                          st.sampled_from(["─", "-", "=-", GC.WIDE[0], "━", "ab" + GC.WIDE[1], "*"]), st.sampled_from(["left", "center", "right"]))
         bar = st.builds(lambda size, b, e, w: {"k": "bar", "size": size, "begin": min(b, e), "end": max(b, e), "width": w}, st.integers(1, 100), st.integers(0, 100), st.integers(0, 100), st.one_of(st.none(), st.integers(1, 80)))
         pbar = st.builds(lambda total, c, w, p, at: {"k": "pbar", "total": total, "completed": c, "width": w, "pulse": p, "atime": at}, st.one_of(st.integers(0, 100), st.just(0)), st.integers(0, 120), st.one_of(st.none(), st.integers(1, 80)), st.booleans(),
